@@ -605,6 +605,7 @@ func genC14(r *Rng, tier string) []Case {
 		[]byte("::,=:B0a"),
 		[]byte("CN=Jérôme,OU=Büro:Ünïcode,DC=例え"),
 		{0xff, 0xfe, ':', 0x80, 'a', ',', '=', 0x00, 0xc3},
+		[]byte("CN=100%,OU=%s%d%v%%,DC=a%x\\n"), // characters that mean something to formatting and escaping layers
 	}
 	for i := 0; i < 700*scale; i++ {
 		al := dnAlphabets[rd.Intn(len(dnAlphabets))]
